@@ -278,7 +278,10 @@ pub fn flate_decode(data: &[u8], params: &LZWFlateParams) -> Result<Vec<u8>> {
     let predictor = params.predictor as usize;
     let n_components = params.n_components as usize;
     let columns = params.columns as usize;
-    let stride = columns * n_components;
+    let stride = match columns.checked_mul(n_components) {
+        Some(stride) => stride,
+        None => bail!("invalid predictor geometry: {} columns, {} components", columns, n_components)
+    };
 
 
     // First flate decode
@@ -297,6 +300,10 @@ pub fn flate_decode(data: &[u8], params: &LZWFlateParams) -> Result<Vec<u8>> {
 
     if predictor > 10 {
         let inp = decoded; // input buffer
+        if stride >= inp.len() {
+            // not even one row: nothing to un-predict (and no row-sized buffers to allocate)
+            return Ok(Vec::new());
+        }
         let rows = inp.len() / (stride+1);
         
         // output buffer
